@@ -28,6 +28,52 @@ def _mk_pool():
         elaborate_frame.register(fn, _make_elab(i))
 
 
+OWN = []       # C16: suspended generator / coroutine / async generator objects (kind = index % 3), functions G<i>
+NOWN = 24
+ELAB16 = {}    # owner index -> elaborate result spec for the current case
+
+
+@__import__("types").coroutine
+def _susp():
+    yield
+
+
+def _mk_own():
+    for i in range(NOWN):
+        ns = {"_susp": _susp}
+        src = ["def G%d():\n    yield\n", "async def G%d():\n    await _susp()\n", "async def G%d():\n    yield\n"][i % 3] % i
+        exec(src, ns)
+        fn = ns["G%d" % i]
+        o = fn()
+        if i % 3 == 0:
+            next(o)
+        elif i % 3 == 1:
+            o.send(None)
+        else:
+            try:
+                o.asend(None).send(None)
+            except StopIteration:
+                pass
+        OWN.append((o, fn))
+        elaborate_frame.register(fn, _make_elab16(i))
+
+
+def _make_elab16(idx):
+    def hook(frame, next_inner):
+        e = ELAB16.get(str(idx), ["none"])
+        LOG.append(["elab16", idx, e[0]])
+        if e[0] == "none":
+            return None
+        if e[0] == "replace":
+            return [realize(n) for n in e[1]]
+        if e[0] == "replace1":
+            return realize(e[1][0])
+        if e[0] == "insert":
+            return [realize(n) for n in e[1]] + [next_inner]
+        raise AssertionError(e)
+    return hook
+
+
 class Item:
     def __init__(self, spec):
         self.spec = spec
@@ -48,6 +94,8 @@ def realize(node):
         return None
     if "f" in node:
         return POOL[node["f"]][0].gi_frame
+    if "g" in node:
+        return OWN[node["g"]][0]
     name = node["name"]
     it = ITEMS.get(name)
     if it is None:
@@ -118,6 +166,7 @@ def init():
     global _inited
     if not _inited:
         _mk_pool()
+        _mk_own()
         unwrap_stackitem.register(Item, _unwrap_item)
         _inited = True
 
@@ -169,12 +218,15 @@ def run_c16(req):
     """extract_outermost(x) vs extract(x) on custom item trees (no elaborate hooks)."""
     init()
     ELAB.clear()
+    ELAB16.clear()
+    ELAB16.update(req.get("elab16") or {})
     ITEMS.clear()
     del LOG[:]
     root = realize(req["root"])
     obs = []
     st = extract(root)
-    stats = {"frames": len(st.frames), "error": st.error is not None}
+    stats = {"frames": len(st.frames), "error": st.error is not None,
+             "owned": 0, "owned_after_redirect": 0}
     try:
         fo = stackscope.extract_outermost(root)
     except BaseException as ex:
@@ -195,7 +247,30 @@ def run_c16(req):
             if not (fo.pyframe is a.pyframe and fo.lineno == a.lineno and fo.contexts == a.contexts
                     and fo.hide == a.hide and fo.hide_line == a.hide_line and fo.origin is a.origin):
                 obs.append({"kind": "outermost_differs", "got": fo.funcname, "exp": a.funcname})
+    redirected = False
     for f in st.frames:
+        name = f.funcname
+        if name[:1] == "G" and name[1:].isdigit():
+            # looked inside a suspended generator / coroutine / async generator: that object is the origin, however the
+            # trace got to it (the item tree, a replacement or an insertion made by an elaborate_frame hook)
+            idx = int(name[1:])
+            stats["owned"] += 1
+            stats["owned_after_redirect"] += 1 if redirected else 0
+            if f.origin is not OWN[idx][0]:
+                obs.append({"kind": "origin_is_not_owner", "frame": name, "after_redirect": redirected,
+                            "origin": repr(f.origin)[:80]})
+            if ELAB16.get(str(idx), ["none"])[0] != "none":
+                redirected = True
+            try:
+                if stackscope.extract_outermost(OWN[idx][0]).pyframe is not f.pyframe:
+                    obs.append({"kind": "origin_recovers_other_frame", "frame": name})
+            except BaseException as ex:
+                obs.append({"kind": "origin_contract_raised", "frame": name, "exc": repr(ex)})
+            continue
+        if name == "_susp":
+            if f.origin is None or getattr(f.origin, "gi_frame", None) is not f.pyframe:
+                obs.append({"kind": "origin_is_not_owner", "frame": name, "origin": repr(f.origin)[:80]})
+            continue
         if f.origin is not None:
             import weakref
             try:
@@ -208,6 +283,7 @@ def run_c16(req):
             if f.origin is not own:
                 obs.append({"kind": "origin_is_not_owner", "frame": f.funcname})
     ITEMS.clear()
+    ELAB16.clear()
     return {"obs": obs, "stats": stats}
 
 
